@@ -1029,6 +1029,35 @@ def prop_c09(sel, d, eph, k, explicit):
     return "ok"
 
 
+@op("prop.c07default")
+def prop_c07default(sel, eph, k, with_update):
+    """a file written WITHOUT a recipient for its ECC block: the block is for the published key of ITS selector and wraps the
+    session key of the file (the ephemeral scalar comes from the oracle, so the block can be opened with eph * published key)"""
+    import refec
+    sel, eph, key = int(sel), int(eph), unhx(k)
+    P = refec.P256
+    blocks = [InitEccAuthBlock(sel)] + ([UpdateAuthBlock(bytes(range(8)), 5)] if with_update == "1" else [])
+    f = Bec2File(mkfile({}, [Bf3Component({0xC3: b"\x02"}, b"payload")]), blocks, key)
+    with Oracle([eph]):
+        try:
+            hdr = f.pack_auth_blocks()
+        except KeyError:
+            return "ok KeyError" if sel not in EccEncryptor.DEFAULT_PUBLIC_KEYS else "FAIL KeyError for a published selector"
+    if hdr[0] != 3:
+        return "FAIL the ECC block is not the first block"
+    raw = hdr[2:2 + hdr[1]]
+    if raw[0] != sel or raw[1] != 4 or len(raw) != 82:
+        return "FAIL malformed ECC block"
+    pub = bytes(EccEncryptor.DEFAULT_PUBLIC_KEYS[sel])[-64:]
+    Q = (int.from_bytes(pub[:32], "big"), int.from_bytes(pub[32:], "big"))
+    shared = refec.mul(P, eph, Q)[0].to_bytes(32, "big")
+    got = refaes.cbc_decrypt(sha256(shared).digest()[:16], bytes(16), raw[66:])
+    if got != key:
+        return (f"FAIL the ECC block announces selector {sel} but the holder of the published key of selector {sel} recovers "
+                f"{got.hex()} instead of the session key of the file")
+    return "ok"
+
+
 @op("prop.c07realrand")
 def prop_c07realrand(sel, d, nfiles):
     """no oracle: the registered key generator and random source themselves.  Every file written without a session key gets
